@@ -1,4 +1,5 @@
 import json
+import html
 import logging
 from typing import List
 from typing import Optional
@@ -90,7 +91,7 @@ def inputs(form_args):
     for name, value in form_args.items():
         if name == "scope" and isinstance(value, list):
             value = " ".join(value)
-        element.append(html_field.format(name, value))
+        element.append(html_field.format(html.escape(str(name)), html.escape(str(value))))
     return "\n".join(element)
 
 
@@ -839,7 +840,7 @@ class Authorization(Endpoint):
                 if "return_type" in _args:
                     del _args["return_type"]
 
-            msg = FORM_POST.format(inputs=inputs(_args), action=return_uri)
+            msg = FORM_POST.format(inputs=inputs(_args), action=html.escape(str(return_uri)))
             kwargs.update(
                 {
                     "response_msg": msg,
